@@ -54,6 +54,12 @@ def run(ctx):
             for nm in g:
                 g[nm]["stamp"] = rng.random() < 0.3
                 g[nm]["always"] = rng.random() < 0.15
+        # a family of targets with one stem, built by default.<ext>.do rules that write to $3 (their temporary files
+        # and arguments must not collide when they are built at the same time)
+        family = rng.random() < 0.6
+        fam = ["gen.a", "gen.b", "gen.c"] if family else []
+        if family:
+            g["zfam"] = dict(deps=[], dur=0, fail=False, always=False, stamp=False)
         variants = [["-j1"], ["-j%d" % rng.randint(2, 4)], ["-j%d" % rng.randint(2, 8), "--shuffle"], ["-j1", "--shuffle"]]
         if thorough:
             variants += [["-j8"], ["-j3", "--shuffle"]]
@@ -62,6 +68,10 @@ def run(ctx):
             pr = Project()
             try:
                 sched.write_project(pr, g)
+                if family:
+                    pr.write("zfam.do", "redo-ifchange %s\ncat %s\n" % (" ".join(fam), " ".join(fam)))
+                    for x in "abc":
+                        pr.write("default.%s.do" % x, 'sleep 0.0%d\necho "$1 $2 %s" >"$3"\n' % (rng.randint(2, 6), x))
                 seq = []
                 for phase in range(2):
                     if phase == 1:
@@ -86,7 +96,7 @@ def run(ctx):
                         p = write_replay("C07", "once-%d" % i, dict(kind="trace-rejected+impl-monitor", scenario=scen, answer=ans, counts=counts, events=ev))
                         viol.append(Violation("C07", p, "redo %s all: a target's script ran more than once in one run (%s; model: %s)" % (" ".join(v), {k: c for k, c in counts.items() if c > 1}, ans)))
                         break
-                    contents = {nm: pr.read(nm) for nm in list(g) + ["all"]}
+                    contents = {nm: pr.read(nm) for nm in list(g) + ["all"] + fam}
                     seq.append(dict(rc=r.rc, contents=contents, db=db_abstract(pr), counts=counts))
                 if viol:
                     break
